@@ -1,14 +1,14 @@
 (* C07 — Own blocks validate; any deviation from re-execution is rejected; a rejected block
    leaves no trace.
    Property theorems only: each is closed by [exact <lemma>] and followed by
-   [Print Assumptions].  Model: Model/C07.v  Lemmas: Proofs/C07.v
+   [Print Assumptions].  Model: Model/C07.v  Lemmas: Proofs/C07.v, Proofs/C07_Sel.v
    Generated data: Generated/C07Checks.v (comparison sites and write skeletons of the current source).
 
    Throughout: [exec] is ANY deterministic re-execution function (Process + the recomputations
    of ValidateState), [root]/[uroot]/[bhash] are ANY hash functions; nothing is assumed about
    them (collisions appear as explicit disjuncts). *)
 From Coq Require Import List NArith Bool String.
-From GQ Require Import Model.C07 Generated.C07Checks Proofs.C07.
+From GQ Require Import Model.C07 Generated.C07Checks Proofs.C07 Proofs.C07_Sel.
 Import ListNotations.
 Local Open Scope N_scope.
 
@@ -255,6 +255,57 @@ Theorem validation_path_writes_only_to_the_batch : no_direct_write_on_validation
 Proof. vm_compute. reflexivity. Qed.
 Print Assumptions validation_path_writes_only_to_the_batch.
 
+(* === the worker's arbitration between conflicting pool transactions ===
+   (why execution of the selected list cannot fail on a spent outpoint: the hypothesis
+   "exec succeeds" of assembled_block_validates, for the spend-once part of exec) *)
+
+(* For EVERY committed UTXO set and EVERY pool content in every processing order (any number of
+   mutually conflicting transactions, partial overlaps, transactions rejected for other reasons
+   after they reserved inputs): the list selected by the worker's input loop names every outpoint at
+   most once and only existing ones - under the code as it is (rejected transactions keep their
+   reservations) and under a clean-up that releases exactly what the rejected transaction inserted. *)
+Theorem worker_selection_spends_each_outpoint_once :
+  forall p utxo pool, p = KeepAll \/ p = ReleaseOwn ->
+  NoDup (spent_by (wselect p utxo pool)) /\ (forall x, In x (spent_by (wselect p utxo pool)) -> In x utxo).
+Proof. exact wselect_spends_once. Qed.
+Print Assumptions worker_selection_spends_each_outpoint_once.
+
+(* ... hence the validator's sequential spend check (ProcessQiTx: look up, delete) accepts it. *)
+Theorem worker_selection_passes_validator_spend_check :
+  forall p utxo pool, p = KeepAll \/ p = ReleaseOwn -> vspend utxo (wselect p utxo pool) = true.
+Proof. exact wselect_passes_vspend. Qed.
+Print Assumptions worker_selection_passes_validator_spend_check.
+
+(* Any body that names every outpoint once, and only existing ones, passes that check (what the
+   harness monitor own-block/outpoint-spent-twice evaluates on the real block). *)
+Theorem spend_once_body_passes_validator_spend_check :
+  forall body utxo, NoDup (spent_by body) -> (forall x, In x (spent_by body) -> memN x utxo = true) ->
+  vspend utxo body = true.
+Proof. exact vspend_ok. Qed.
+Print Assumptions spend_once_body_passes_validator_spend_check.
+
+(* A clean-up that also releases the contested outpoint is refuted: with three pool transactions on
+   one outpoint the worker selects two of them and the node rejects its own block (harness corpus
+   chain qi-conflict-clusters replays this witness and its generalisations on the real worker). *)
+Theorem release_of_contested_outpoint_refuted :
+  exists utxo pool, vspend utxo (wselect ReleaseNamed utxo pool) = false
+    /\ ~ NoDup (spent_by (wselect ReleaseNamed utxo pool)).
+Proof. exact release_named_unsafe. Qed.
+Print Assumptions release_of_contested_outpoint_refuted.
+
+(* ... and it takes at least three: with two conflicting transactions that clean-up is harmless. *)
+Theorem release_of_contested_outpoint_needs_three_conflicts :
+  forall x r1 r2, vspend [x] (wselect ReleaseNamed [x] [mkP [x] r1; mkP [x] r2]) = true.
+Proof. exact release_named_two_conflicts_harmless. Qed.
+Print Assumptions release_of_contested_outpoint_needs_three_conflicts.
+
+(* The CURRENT source is the KeepAll policy: env.deletedUtxos is created empty with the block
+   environment, touched in processQiTx only, by a look-up that rejects followed by an insertion;
+   nothing deletes from it, resets it or hands it to other code. *)
+Theorem worker_reservation_set_is_insert_only : worker_reservation_insert_only = true.
+Proof. vm_compute. reflexivity. Qed.
+Print Assumptions worker_reservation_set_is_insert_only.
+
 (* === non-vacuity === *)
 
 (* a concrete instance: transactions are numbers, the root of a list is its sum + length*1000,
@@ -298,4 +349,16 @@ Example rejected_block_no_trace_nonvacuous :
   let bad := with_decl N N (N * N) (mkBlock N N (N * N) (50, 1) [3; 9; 4] [9] [] (b_decl _ _ _ ex_block)) (set FEvmRoot 1 (b_decl _ _ _ ex_block)) in
   let good := mkBlock N N (N * N) (50, 1) [3; 9; 4] [9] [] (b_decl _ _ _ ex_block) in
   sch d bad = (d, SErr VEvmRoot) /\ snd (sch d good) = SOk /\ d_canon _ (fst (sch d good)) = [(1, 169); (0, 50)].
+Proof. vm_compute. repeat split; reflexivity. Qed.
+
+(* the arbitration on a concrete pool: triple spend of 7, a partial overlap that keeps 9 reserved
+   (the transaction naming 9 then 7 is rejected at 7; the later spend of 9 alone is then rejected
+   too under KeepAll but selected under ReleaseOwn), an independent spend, a missing outpoint *)
+Example worker_selection_nonvacuous :
+  let pool := [mkP [7] true; mkP [7] true; mkP [9; 7] true; mkP [7] true; mkP [9] true; mkP [5] true; mkP [4] true; mkP [8] false; mkP [8] true] in
+  map p_ins (wselect KeepAll [5; 7; 8; 9] pool) = [[7]; [5]]
+  /\ map p_ins (wselect ReleaseOwn [5; 7; 8; 9] pool) = [[7]; [9]; [5]; [8]]
+  /\ map p_ins (wselect ReleaseNamed [5; 7; 8; 9] pool) = [[7]; [9; 7]; [5]; [8]]
+  /\ vspend [5; 7; 8; 9] (wselect KeepAll [5; 7; 8; 9] pool) = true
+  /\ vspend [5; 7; 8; 9] (wselect ReleaseNamed [5; 7; 8; 9] pool) = false.
 Proof. vm_compute. repeat split; reflexivity. Qed.
